@@ -462,14 +462,19 @@ def w1_rotational_sort(ctx):
     walks = []  # per inner for-loop: (sign of index step, composition applied to Cn as list of fn names innermost-first, start expr)
     b_all = list(au.stmts(fn.body))
     for st in b_all:
-        if not isinstance(st, ast.For) or not (isinstance(st.target, ast.Name) and st.target.id == "_"):
+        if not isinstance(st, ast.For) or not isinstance(st.target, ast.Name):
+            continue
+        # a walk = a loop whose own body re-assigns a variable from corner accessors applied to itself (Cn = self.f(self.g(Cn)))
+        if not any(isinstance(s, ast.Assign) and isinstance(s.targets[0], ast.Name) and isinstance(s.value, ast.Call)
+                   and au.is_self_attr(s.value.func) and s.targets[0].id in au.names(s.value) for s in st.body):
             continue
         step = None
         comp = []
         var = None
         for s in st.body:
-            if isinstance(s, ast.AugAssign) and isinstance(s.target, ast.Name) and au.const(s.value) == 1:
-                step = +1 if isinstance(s.op, ast.Add) else -1 if isinstance(s.op, ast.Sub) else None
+            inc = au.increment(s)
+            if inc is not None and au.const(inc[2]) == 1 and isinstance(s.targets[0] if isinstance(s, ast.Assign) else s.target, ast.Name):
+                step = inc[1]
             if isinstance(s, ast.Assign) and isinstance(s.targets[0], ast.Name) and isinstance(s.value, ast.Call):
                 var = s.targets[0].id
                 e = s.value
@@ -665,12 +670,16 @@ def w2_sorted_tables(ctx):
         return
     A = outer[0].target.id
     sorts = {}
-    for st in outer[0].body:           # top level of the per-vertex body: unconditional
+    b = sym.Bindings(fn)
+    for st in au.stmts(outer[0].body):
         if isinstance(st, ast.Expr) and isinstance(st.value, ast.Call) and au.call_tail(st.value) == "sort" \
                 and isinstance(st.value.func.value, ast.Subscript) and au.is_self_attr(st.value.func.value.value) \
                 and au.src(st.value.func.value.slice) == A:
-            key = next((k.value for k in st.value.keywords if k.arg == "key"), None)
-            sorts[st.value.func.value.value.attr] = key
+            # unconditional for every vertex that has corners: the only admissible condition is a test on the corner list itself
+            conds = [b.resolve(t, at=st, keep=(A,)) for t, _ in au.conditions(st, stop=outer[0])]
+            if all("_adjV2Cn" in au.src(t) and set(au.names(t)) <= {"len", "self", A} for t in conds):
+                key = next((k.value for k in st.value.keywords if k.arg == "key"), None)
+                sorts[st.value.func.value.value.attr] = key
     for field in ("_adjV2Cn", "_adjV2V"):
         ctx.check(field in sorts, "C01-W2", site, f"self.{field}[{A}] is not sorted unconditionally for every vertex that has corners",
                   "corners / neighbour vertices around a vertex must come in rotational order", note=f"{field} sorted per vertex")
@@ -696,7 +705,7 @@ def w2_sorted_tables(ctx):
                         and au.call_tail(val.args[0]) == "half_edge_to_corner":
                     args = [au.src(a) for a in val.args[0].args]
                     loops = [a for a in au.ancestors(st) if isinstance(a, ast.For)]
-                    over_all = bool(loops) and au.src(loops[0].iter) == f"self._adjV2V[{A}]" and not au.guards(st, stop=loops[0])
+                    over_all = bool(loops) and au.src(loops[0].iter) == f"self._adjV2V[{A}]" and not au.conditions(st, stop=loops[0])
                     okv = args == [A, v] and over_all
     ctx.check(okv, "C01-W2", site,
               f"neighbour vertices are not keyed by sort_index[corner of the half edge ({A}, v)] for every neighbour v",
